@@ -61,9 +61,9 @@ ssize_t __real_write(int, const void *, size_t);
 
 enum { ST_PENDING = 1, ST_DELIVERED, ST_LIBCLOSED, ST_HCLOSED };
 enum { ACT_NONE, ACT_DISABLE, ACT_DISABLE_ENABLE, ACT_SETCB_NULL, ACT_SETCB_OTHER, ACT_FREE_SELF, ACT_FREE_OTHER,
-       ACT_CONNECT_MORE, ACT_CLOSE_FD, ACT_SET_ERRCB_NULL, ACT__N };
+       ACT_CONNECT_MORE, ACT_CLOSE_FD, ACT_SET_ERRCB_NULL, ACT_DISABLE_FREE_SELF, ACT_SETCB_FREE_SELF, ACT__N };
 static const char *actname[] = { "none", "disable", "disable+enable", "setcb-null", "setcb-other", "free-self", "free-other",
-	"connect-more", "close-fd", "errcb-null" };
+	"connect-more", "close-fd", "errcb-null", "disable+free-self", "setcb-null+free-self" };
 
 struct cbarg { int lidx; int which; };
 struct lst {
@@ -312,6 +312,9 @@ static void run_action(struct lst *l, int act, int fd, struct acc *a)
 	case ACT_SETCB_NULL: do_setcb(l, 0); break;
 	case ACT_SETCB_OTHER: do_setcb(l, l->m_cb == 1 ? 2 : 1); break;
 	case ACT_FREE_SELF: do_free(l); break;
+	/* two-step histories inside one callback (seeded defect C44-1: disable then free leaked the listener) */
+	case ACT_DISABLE_FREE_SELF: do_disable(l); do_free(l); vh_stat("disable_then_free_in_callback"); break;
+	case ACT_SETCB_FREE_SELF: do_setcb(l, 0); do_free(l); break;
 	case ACT_FREE_OTHER: if (o->used && !o->freed) do_free(o); break;
 	case ACT_CONNECT_MORE: if (!l->freed) { do_connect((int)(l - L), 0); do_connect((int)(l - L), 0); } break;
 	case ACT_CLOSE_FD: if (a && fd >= 0) { __real_close(fd); a->state = ST_HCLOSED; } break;
@@ -597,7 +600,7 @@ static int mk_listener(int li)
 static void arm_actions(struct lst *l)
 {
 	static const int acts[] = { ACT_DISABLE, ACT_DISABLE_ENABLE, ACT_SETCB_NULL, ACT_SETCB_OTHER, ACT_SETCB_OTHER, ACT_FREE_SELF, ACT_FREE_OTHER,
-		ACT_CONNECT_MORE, ACT_CLOSE_FD, ACT_CLOSE_FD, ACT_NONE, ACT_NONE };
+		ACT_CONNECT_MORE, ACT_CLOSE_FD, ACT_CLOSE_FD, ACT_NONE, ACT_NONE, ACT_DISABLE_FREE_SELF, ACT_SETCB_FREE_SELF };
 	int n = (int)vh_range(crng, 1, 3), i;
 	l->nact = l->actpos = 0;
 	for (i = 0; i < n && l->nact < MAXACT; i++) {
@@ -608,7 +611,7 @@ static void arm_actions(struct lst *l)
 }
 static void arm_err_actions(struct lst *l)
 {
-	static const int acts[] = { ACT_DISABLE, ACT_FREE_SELF, ACT_SET_ERRCB_NULL, ACT_DISABLE_ENABLE, ACT_SETCB_NULL, ACT_NONE, ACT_NONE, ACT_FREE_OTHER };
+	static const int acts[] = { ACT_DISABLE, ACT_FREE_SELF, ACT_SET_ERRCB_NULL, ACT_DISABLE_ENABLE, ACT_SETCB_NULL, ACT_NONE, ACT_NONE, ACT_FREE_OTHER, ACT_DISABLE_FREE_SELF };
 	int n = (int)vh_range(crng, 1, 2), i;
 	l->neact = l->eactpos = 0;
 	for (i = 0; i < n && l->neact < MAXACT; i++) {
